@@ -139,7 +139,7 @@ func (failingCodec) Name() string                               { return "failin
 func messages() []proto.Message {
 	var out []proto.Message
 	out = append(out, &emptypb.Empty{})
-	for _, n := range []int{0, 1, 127, 128, 16383, 16384, 65536} {
+	for _, n := range []int{0, 1, 127, 128, 255, 256, 4090, 4095, 4096, 4097, 16383, 16384, 65535, 65536, 1 << 20} {
 		out = append(out, wrapperspb.String(strings.Repeat("x", n)), wrapperspb.Bytes(bytes.Repeat([]byte{0xFD}, n)))
 	}
 	for _, v := range []int64{0, 1, -1, 127, 128, 1 << 31, -1 << 63, 1<<63 - 1} {
